@@ -123,4 +123,24 @@ PROPS = {
         "assumptions": ["SQL engine compares strings byte-wise; identifiers differing only in case or trailing blanks are not generated (collation of a real server is out of scope)",
                         "identifiers containing '/' are not generated for task ids / channels (outside the stated domain)"],
     },
+    "C13": {
+        "pkg": "hcatalog", "test": "TestC13", "level": "exploration",
+        "quick": T(16, 20, timeout=1200), "thorough": T(16, 600, timeout=7000),
+        "rule": "generated source-catalog histories in a real embedded etcd (2 databases x names c1/c2: create via Creating->Created or Creating->tombstone, drop via Dropping[->Dropped[->tombstone]], re-create with a new id, "
+                "partitions p1/p2 create/drop, rewrite of a live record = repeated notification) split by drawn cut points over the reader's steps {before start, after the watches are opened, after the collection listing, "
+                "after the partition listing, after StartWatch} through a decorating MetaOp; real EtcdOp + real CollectionReader + real replicateChannelManager (fake dispatcher/downstream); task selects * or default.c1. "
+                "Oracle at quiescence (sentinel objects + goroutine dump): every selected collection that is Created at the end was started exactly once (one Register of its vchannel), no collection started twice, unselected / "
+                "creating->dropped ones never, every live non-default partition of a started collection produced exactly one create-partition request, no error on ErrorChan, no error event. "
+                "non-trivial = at least one catalog write lands between opening the watch and StartWatch and >= 1 collection must start; distinct = distinct (selection, phased history)",
+        "assumptions": ["downstream collections exist (synthesised by the fake target), downstream lacks the named partitions", "retry budget 3 x 1 s", "go-deadlock detector disabled (toolchain artefact)"],
+    },
+    "C15": {
+        "pkg": "hcatalog", "test": "TestC15", "level": "exploration",
+        "quick": T(8, 150, timeout=900), "thorough": T(16, 6000, timeout=7000),
+        "rule": "generated catalogs in a real embedded etcd: default + 0..2 named databases (at most one tombstoned, only with a milvus target), per (database, name in {c1,c2}) 0..2 dropped incarnations (Dropped / Dropping / tombstone) "
+                "followed by an optional live one (Created, or Creating in 1/6), partitions _default + p1/p2 with 0..2 dropped incarnations and an optional live one, increasing create times, TSO value, target nil or fake "
+                "(answers the downstream database of collections whose source database is gone, or not-found). Oracle: GetAllDroppedObj() compared as maps with a reference written from the statement (keys via util.Get*InfoKeys on the object's "
+                "own database; horizon create(live namesake)-1 or now-1; entries exactly for names with a dropped incarnation). non-trivial = a name with both a dropped and a live incarnation, or the same collection name in >= 2 databases; distinct = distinct catalog",
+        "assumptions": ["a namesake in Creating state is accepted as live (create-1) or absent (now-1)", "tombstoned records carry no name and are invisible"],
+    },
 }
